@@ -137,20 +137,54 @@ def check_dotdot(ctx, prog):
     # replace(): restart after the replaced occurrence
     rp = fn1(prog, 'asl::String::replace', '(const asl::String &,const asl::String &)const')
     ctx.analysed(rp)
-    loops = [s_ for s_ in ir.walk_stmts(rp['body']) if s_.get('k') == 'for']
-    ok = False
-    if len(loops) == 1:
-        lp = loops[0]
-        iv = lp['init']['vars'][0] if lp.get('init') and lp['init'].get('k') == 'decl' else None
-        inc = strip(lp.get('inc') or {})
-        # i = j + m in both init and increment, j = indexOf(a, i) inside
-        def jm(e):
-            e = strip(e)
-            return e.get('k') == 'bin' and e.get('op') == '+' and strip(e['x']).get('k') == 'var' and strip(e['y']).get('k') == 'var'
-        searches = [e for e in ir.stmt_exprs(lp['body']) if e.get('k') == 'call' and e.get('pq') == 'asl::String::indexOf' and len(e.get('a', [])) == 2 and iv is not None and strip(e['a'][1]).get('id') == iv['id']]
-        ok = iv is not None and jm(iv.get('init')) and inc.get('op') == '=' and jm(inc['y']) and len(searches) == 1
-    ctx.check(ok, 'C09.dotdot', rp['pq'], 'replace:search restarts after each replaced occurrence', fwhere(rp), 'i = j + m; j = indexOf(a, i)',
-              'String::replace does not restart its search right after the replaced occurrence: the single pass that removes ".." is no longer guaranteed to leave none')
+    role = 'replace:search restarts after each replaced occurrence'
+    in_loop = set(id(e) for lp in ir.walk_stmts(rp['body']) if lp.get('k') in ('for', 'while', 'do') for e in ir.stmt_exprs(lp['body']))
+    searches = [e for e in fn_exprs(rp) if e.get('k') == 'call' and e.get('pq') == 'asl::String::indexOf' and len(e.get('a', [])) == 2 and id(e) in in_loop and strip(e['a'][1]).get('k') == 'var']
+    if len(searches) != 1:
+        ctx.undecided('C09.dotdot', rp['pq'], role, fwhere(rp), 'no single indexOf(a, i) inside the replace loop')
+        return
+    iv = strip(searches[0]['a'][1])['id']
+    pat = rp['params'][0]['id']
+    # variables that receive match positions (results of indexOf on the pattern)
+    jvars = set()
+    for s_ in ir.walk_stmts(rp['body']):
+        if s_.get('k') == 'decl':
+            for v in s_['vars']:
+                if v.get('init') is not None and strip(v['init']).get('k') == 'call' and strip(v['init']).get('pq') == 'asl::String::indexOf':
+                    jvars.add(v['id'])
+    for e in fn_exprs(rp):
+        if e.get('k') == 'bin' and e.get('op') == '=' and strip_lv(e['x']).get('k') == 'var' and strip(e['y']).get('k') == 'call' and strip(e['y']).get('pq') == 'asl::String::indexOf':
+            jvars.add(strip_lv(e['x'])['id'])
+
+    def is_patlen(x):
+        x = strip(q.expand(rp, x))
+        return x.get('k') == 'call' and (x.get('pq') or '').endswith('::length') and strip(x.get('obj') or {}).get('id') == pat
+
+    def restart_form(x):
+        """x == j + m  (j a match position, m the pattern length)"""
+        x = strip(x)
+        if x.get('k') != 'bin' or x.get('op') != '+':
+            return False
+        l, r = strip(x['x']), strip(x['y'])
+        return (l.get('k') == 'var' and l.get('id') in jvars and is_patlen(x['y'])) or (r.get('k') == 'var' and r.get('id') in jvars and is_patlen(x['x']))
+    writes = []
+    for s_ in ir.walk_stmts(rp['body']):
+        if s_.get('k') == 'decl':
+            for v in s_['vars']:
+                if v['id'] == iv and v.get('init') is not None:
+                    writes.append((v['init'], s_.get('l')))
+    for e in q._writes_to(rp, iv):
+        if e.get('k') == 'bin' and e.get('op') == '=':
+            writes.append((e['y'], e.get('l')))
+        else:
+            writes.append((None, e.get('l')))
+    ctx.evaluations += len(writes)
+    if not writes:
+        ctx.undecided('C09.dotdot', rp['pq'], role, fwhere(rp), 'search position is never written')
+        return
+    badw = [(w, l) for w, l in writes if w is None or not restart_form(w)]
+    ctx.check(not badw, 'C09.dotdot', rp['pq'], role, fwhere(rp, badw[0][1] if badw else None), 'every search position is (previous match) + (pattern length)',
+              'String::replace continues its search from `%s`, not from right after the replaced occurrence (match + pattern length): the single pass that removes ".." is no longer guaranteed to leave none' % (pe(badw[0][0]) if badw and badw[0][0] is not None else 'a stepped index'))
 
 
 def check_splitidx(ctx, prog):
